@@ -2744,9 +2744,7 @@ class sptensor:
         # Case 1: One argument is a scalar
         if isinstance(other, (float, int)):
             if other == 0:
-                return ttb.sptensor(
-                    self.subs, True * np.ones((self.subs.shape[0], 1)), self.shape
-                )
+                return self.ones()
             subs1 = np.empty(shape=(0, self.ndims), dtype=int)
             if self.nnz > 0:
                 subs1 = self.subs[self.vals.transpose()[0] != other, :]
@@ -2754,7 +2752,8 @@ class sptensor:
             subs2 = self.allsubs()[subs2Idx, :]
             return ttb.sptensor(
                 np.vstack((subs1, subs2)),
-                True * np.ones((subs2.shape[0], 1)).astype(self.vals.dtype),
+                True
+                * np.ones((subs1.shape[0] + subs2.shape[0], 1)).astype(self.vals.dtype),
                 self.shape,
             )
 
